@@ -524,13 +524,18 @@ def fam_conv_chain(rng, big=False):
     return net
 
 
-def fam_single_op(rng):
-    """one operator of a random kind with corner shapes"""
+SINGLE_KINDS = ["conv", "dw", "fc", "maxpool", "avgpool", "add", "sub", "mul", "logistic", "tanh", "lrelu", "hswish",
+                "softmax", "mean", "resize_bilinear", "resize_nearest", "quantize", "tconv", "reshape", "pad",
+                "slice", "concat", "minimum", "maximum", "relu", "abs", "add_bcast", "mul_scalar"]
+
+
+def fam_single_op(rng, kind=None):
+    """one operator of a given (or random) kind with corner shapes"""
     net = Net("single")
     dt = _dtype(rng)
-    kind = rng.choice(["conv", "dw", "fc", "maxpool", "avgpool", "add", "sub", "mul", "logistic", "tanh", "lrelu", "hswish",
-                       "softmax", "mean", "resize_bilinear", "resize_nearest", "quantize", "tconv", "reshape", "pad",
-                       "slice", "concat", "minimum", "maximum", "relu", "abs", "add_bcast", "mul_scalar"])
+    if kind in ("hswish",):
+        dt = rng.choice(["int8", "uint8"])
+    kind = kind or rng.choice(SINGLE_KINDS)
     h, w, c = rng.randrange(1, 20), rng.randrange(1, 20), rng.choice([1, 2, 3, 4, 7, 8, 16, 17, 32, 64])
     net.name = "single_" + kind
     if kind == "fc":
@@ -657,11 +662,14 @@ def fam_mixed_cpu(rng):
     return net
 
 
-def fam_unsupported(rng):
+UNSUPPORTED_KINDS = ["rank5", "rank0", "batch", "big_stride", "big_kernel", "int32_add", "float", "dyn_weights",
+                     "big_dim", "no_quant", "dilation", "int16_pool", "bool", "per_axis_fc"]
+
+
+def fam_unsupported(rng, kind=None):
     """operators just outside / far outside what the NPU supports, plus odd ranks and dtypes (C13, C16, C11)"""
     net = Net("unsupported")
-    kind = rng.choice(["rank5", "rank0", "batch", "big_stride", "big_kernel", "int32_add", "float", "dyn_weights",
-                       "big_dim", "no_quant", "dilation", "int16_pool", "bool", "per_axis_fc"])
+    kind = kind or rng.choice(UNSUPPORTED_KINDS)
     net.name = "unsupported_" + kind
     dt = "int8"
     if kind == "rank5":
@@ -755,9 +763,11 @@ FAMILIES = {
 
 
 def generate(family, seed):
+    """family may be "single:<kind>" / "unsupported:<kind>" to fix the operator kind"""
     rng = random.Random("%s/%s" % (family, seed))
+    fam, _, kind = family.partition(":")
     for _ in range(20):
-        net = FAMILIES[family](rng)
+        net = FAMILIES[fam](rng, kind) if kind else FAMILIES[fam](rng)
         if net is not None:
             return net
     raise RuntimeError("generator %s produced nothing" % family)
